@@ -47,6 +47,14 @@ def c01_case(draw, tier="quick", names=None):
                 continue
             case[key] = [v if model.miss(v) or draw(st.integers(0, 2)) else draw(wide) for v in case[key]]
         tc["wide"] = True
+    if "t" in case and len(case["t"]) >= 2 and draw(st.integers(0, 7)) == 0:
+        # repeated time stamps (fast data stamped in whole seconds, several depths at one time): still chronological
+        tt = list(case["t"])
+        for i in range(1, len(tt)):
+            if draw(st.booleans()):
+                tt[i] = tt[i - 1]
+        case["t"] = tt
+        tc["repeated_stamps"] = True
     if tc["test"] in ("pressure", "valid_range"):
         tc["carrier"] = "f64"
         if tc["test"] == "pressure" and draw(st.integers(0, 3)) == 0 and case["p"]:
@@ -97,6 +105,8 @@ def nontrivial(tc):
         labels.append("has_missing")
     if huge:
         labels.append("huge_value")
+    if tc.get("repeated_stamps"):
+        labels.append("repeated_time_stamps")
     return (n <= 2 or has_missing or huge), labels
 
 
